@@ -10,6 +10,7 @@
                   reader's written literals; float / Decimal registries compared with the exact Fraction answer.
 """
 import math
+import os
 import random
 from decimal import Decimal
 from fractions import Fraction as F
@@ -225,7 +226,8 @@ def drive_default(chk, rng, thorough):
                 elif form == "Quantity(UnitsContainer).to":
                     r = umap.Quantity(F(1), UC({a: e})).to(UC({b: e})).magnitude
                 else:
-                    r = umap.get_root_units({a: e})[0] / umap.get_root_units({b: e})[0]
+                    ra, rb = umap.get_root_units({a: e})[0], umap.get_root_units({b: e})[0]
+                    r = F(ra) / F(rb) if isinstance(ra, (F, int)) and isinstance(rb, (F, int)) else ra / rb      # (int / int is a float in Python)
         except CaseTimeout:
             chk.skipped += 1
             continue
